@@ -34,7 +34,7 @@ func runC14(c *report.Ctx) {
 	}
 	san := map[string]bool{
 		an.Module + "/masswallet/keystore/hdkeychain.paddedAppend": true,
-		"(*math/big.Int).SetBytes":                                  true,
+		"(*math/big.Int).SetBytes":                                 true,
 	}
 	// a store of the scalar into ExtendedKey.key is judged by the field rule below
 	ruleBigIntBytes(c, pkgHD, 1, san, func(use ssa.Instruction, v ssa.Value) (bool, string) {
@@ -46,7 +46,7 @@ func runC14(c *report.Ctx) {
 
 	c.Rule("key-field", "ExtendedKey.key holds a private scalar of variable length when isPrivate: every read of it is consumed by a padding/integer-reinterpreting function, a length test or a wipe — or happens where the key is known to be public (a fixed 33-byte point)", 6)
 	okCallee := map[string]string{
-		an.Module + "/masswallet/keystore/hdkeychain.paddedAppend":     "left-pads to 32 bytes",
+		an.Module + "/masswallet/keystore/hdkeychain.paddedAppend":      "left-pads to 32 bytes",
 		"(*math/big.Int).SetBytes":                                      "big-endian integer",
 		"(*github.com/btcsuite/btcd/btcec.KoblitzCurve).ScalarBaseMult": "scalar as big-endian integer",
 		"github.com/btcsuite/btcd/btcec.PrivKeyFromBytes":               "scalar as big-endian integer",
@@ -360,7 +360,9 @@ func runC14(c *report.Ctx) {
 				if ea := edgeAtoms(p, pr, b); ea != nil {
 					gs = append(gs, *ea)
 				}
-				private := an.AnyAtom(gs, func(a an.Atom) bool { return a.Op == token.EQL && strings.Contains(p.Desc(a.X), "[0]") && a.Y != nil && p.Desc(a.Y) == "0" })
+				private := an.AnyAtom(gs, func(a an.Atom) bool {
+					return a.Op == token.EQL && strings.Contains(p.Desc(a.X), "[0]") && a.Y != nil && p.Desc(a.Y) == "0"
+				})
 				key := sk(fromStr) + ":gate:"
 				if private {
 					for _, r := range inRange {
